@@ -36,21 +36,33 @@ def steps_of(seqs):
     return out
 
 
-def case_term(c):
+def store_ref(listing, defs):
+    """stores recur along a sequence (previous = last after; many statements change nothing): bind each once"""
+    key = json.dumps(listing, sort_keys=True)
+    if key not in defs:
+        defs[key] = ("st_%d" % len(defs), X.store(listing))
+    return defs[key][0]
+
+
+def case_term(c, defs):
     st, o = c["stmt"], c["stmt"]["obs"]
     show = "None"
     if st["kind"] == "show" and o["class"] == "ok":
         show = "(Some %s)" % X.strs(o.get("show") or [])
     return "(%s, %d%%nat, %s, (fun draw => %s), mkObs %s %s %s)" % (
-        X.cbool(X.det_rows(st)), c["bulk"], X.store(c["prev"]), X.stmt(st), X.oclass(o["class"]), show, X.store(o["after"]))
+        X.cbool(X.det_rows(st)), c["bulk"], store_ref(c["prev"], defs), X.stmt(st), X.oclass(o["class"]), show,
+        store_ref(o["after"], defs))
 
 
 def model_mismatches(ctx, name, cases):
     bad = []
-    shard = 400
+    shard = 1500
     for k in range(0, len(cases), shard):
         part = cases[k:k + shard]
-        v = X.HEADER + "Definition cases : list case := [\n" + ";\n".join(case_term(c) for c in part) + "].\n"
+        defs = {}
+        terms = [case_term(c, defs) for c in part]
+        v = X.HEADER + "".join("Definition %s : store := %s.\n" % d for d in defs.values())
+        v += "Definition cases : list case := [\n" + ";\n".join(terms) + "].\n"
         v += "Definition M := Eval vm_compute in mismatches_from 0 cases.\nPrint M.\n"
         out = vcheck.coq_eval(ctx.work, "%s_%d" % (name, k), v)
         bad += [k + i for i in vcheck.parse_nat_list(out, "M")]
